@@ -146,11 +146,12 @@ static void body()
         for (int shape : int_shapes)
             for (char cls : classes)
                 for (char al : aligns)
-                    for (int pk = 0; pk < 3; ++pk)
+                    for (int pk = 0; pk < 5; ++pk)          // none, _*, 0, "0 then _*" (= _*), "_# then 0" (= 0)
                         for (int alt = 0; alt < 2; ++alt)
                             for (int plus = 0; plus < 2; ++plus) {
                                 Field f;
-                                f.cls = cls; f.align = al; f.padkind = pk; f.padc = '*'; f.alt = alt; f.plus = plus;
+                                f.cls = cls; f.align = al; f.padkind = pk < 3 ? pk : pk == 3 ? 1 : 2; f.overridden = pk == 3 ? 2 : pk == 4 ? 1 : 0;
+                                f.padc = '*'; f.alt = alt; f.plus = plus;
                                 f.order = {0, 1, 2, 3, 4, 5, 6, 7};
                                 // natural length from the reference itself
                                 std::vector<Arg> args;
@@ -214,7 +215,7 @@ static void body()
     });
 
     // ---- random: 0..4 fields, shuffled flag order, literals with brace escapes, mixed sequential / &N
-    vrt::phase("random", vrt::tier_count(250000, 12000000), [&](uint64_t, Rng &r) {
+    vrt::phase("random", vrt::tier_count(800000, 12000000), [&](uint64_t, Rng &r) {
         Values v;
         random_values(r, v);
         int shape = static_cast<int>(r.below(NSHAPES));
